@@ -232,10 +232,22 @@ def make_machine(pool, stats, sd):
     return Replay
 
 
+def _with_repeats(blocks, picks):
+    """solc emits the same helper block several times in one contract: repeat some blocks (under a fresh tag)"""
+    out = list(blocks)
+    for k, p in enumerate(picks):
+        b = list(blocks[p % len(blocks)])
+        if b and b[0][0] == "tag":
+            b[0] = ("tag", str(900 + k))
+        out.append(b)
+    return out
+
+
 def pool_strategy():
     blk = st.one_of(gen.block(max_len=14), gen.block(max_len=16, profile=gen.MEM_PROFILE), gen.block(max_len=12, profile=gen.ARITH_PROFILE),
                     gen.block(max_len=22, profile=gen.SPLIT_PROFILE), gen.corpus_block(), gen.two_store_block())
-    return st.lists(st.lists(blk, min_size=3, max_size=8), min_size=10, max_size=10)
+    contract = st.builds(_with_repeats, st.lists(blk, min_size=3, max_size=8), st.lists(st.integers(0, 7), min_size=0, max_size=3))
+    return st.lists(contract, min_size=10, max_size=10)
 
 
 def shard_run(n_machines, steps, sd):
